@@ -65,21 +65,20 @@ def _impl_iter(x):
         return out, (e.lineno, e.offset)
 
 
-def check(case):
-    s = case['s']
-    f = []
-    if case.get('k') == 'triples':
-        try:
-            got = ('ok', penman.parse_triples(s))
-        except DecodeError as e:
-            got = ('rej', e.lineno, e.offset)
-        try:
-            ref = ('ok', rparse.ref_parse_triples(s))
-        except rparse.Reject as r:
-            ref = ('rej', r.lineno, r.offset)
-        if got != ref:
-            f.append(('parse_triples', '%s: %s, reference %s' % (short(s, 120), short(got, 200), short(ref, 200))))
-        return f
+def _check_triples(s, f):
+    try:
+        got = ('ok', penman.parse_triples(s))
+    except DecodeError as e:
+        got = ('rej', e.lineno, e.offset)
+    try:
+        ref = ('ok', rparse.ref_parse_triples(s))
+    except rparse.Reject as r:
+        ref = ('rej', r.lineno, r.offset)
+    if got != ref:
+        f.append(('parse_triples', '%s: %s, reference %s' % (short(s, 120), short(got, 200), short(ref, 200))))
+
+
+def _check_graph(s, f):
     a, b = _impl_parse(s), _ref_parse(s)
     if not _same(a, b):
         f.append(('parse', '%s: %s, reference %s' % (short(s, 120), short(a, 200), short(b, 200))))
@@ -93,10 +92,30 @@ def check(case):
         if len(it) != len(refs) or not all(_same(p, q) for p, q in zip(it, refs)) or ierr != re_:
             f.append(('iterparse:' + form, '%s: %s err=%r, reference %s err=%r' % (short(x, 120), short(it, 160), ierr, short(refs, 160), re_)))
             break
+
+
+def check(case):
+    """Every string goes through all three entry points (graph reading and conjunction reading), in an order that
+    depends on the string, so that state carried from one call into the next (caches, counters) would show."""
+    s = case['s']
+    f = []
+    if case.get('repeat'):
+        s = s * case['repeat']
+    if case.get('only') == 'graph':
+        _check_graph(s, f)
+    elif case.get('only') == 'triples':
+        _check_triples(s, f)
+    elif (len(s) + (ord(s[0]) if s else 0)) % 2:
+        _check_triples(s, f)
+        _check_graph(s, f)
+    else:
+        _check_graph(s, f)
+        _check_triples(s, f)
     return f
 
 
 def _outcome_class(s, k):
+    s = s if not isinstance(s, dict) else s['s']
     if k == 'triples':
         try:
             rparse.ref_parse_triples(s)
@@ -115,18 +134,19 @@ def _outcome_class(s, k):
 
 
 def nontrivial(case):
-    o, n, idx = _outcome_class(case['s'], case.get('k'))
+    o, n, idx = _outcome_class(case['s'] * case.get('repeat', 1), case.get('k'))
     return (o == 'accepted' and n >= 2) or (o == 'rejected' and idx is not None and idx >= 2)
 
 
 def classes(case):
-    o, n, idx = _outcome_class(case['s'], case.get('k'))
+    o, n, idx = _outcome_class(case['s'] * case.get('repeat', 1), case.get('k'))
     out = [(case.get('k') or 'graph') + ':' + o]
     if o == 'rejected':
         out.append('rejected-at-token>=2' if idx >= 2 else 'rejected-at-token<2')
         if idx >= n and n:
             out.append('rejected-at-eof')
     if case.get('depth'): out.append('deep:%d' % (case['depth'] // 50 * 50))
+    if case.get('repeat'): out.append('repeated>=100' if case['repeat'] >= 100 else 'repeated')
     if '#' in case['s']: out.append('has-comment')
     return out
 
@@ -194,12 +214,14 @@ def _random(draw):
     n = draw(st.integers(1, 4))
     items = []
     for _ in range(n):
-        r = draw(st.sampled_from(['instance', 'ARG0', ':r', 'r-of', '^x', 'a,b']))
+        r = draw(st.sampled_from(['instance', 'ARG0', ':r', 'r-of', '^x', 'a,b', '^g', '^^h']))
         src = draw(st.sampled_from(['a', 'b', 'x1']))
         tgt = draw(st.sampled_from(['b', '"s t"', '1,000', '"a,b"', '"(x)"', '', ',', '^q', 'c']))
         comma = draw(st.sampled_from([', ', ',', ' ,', ' , ', ' ']))
         items.append('%s(%s%s%s)' % (r, src, comma, tgt))
-    s = draw(st.sampled_from([' ^ ', ' ^', '^ ', '^', ' ^\n', ' '])).join(items)
+    s = items[0]
+    for it in items[1:]:
+        s += draw(st.sampled_from([' ^ ', ' ^', '^ ', '^', ' ^\n', ' '])) + it
     if draw(st.integers(0, 2)) == 0:
         toks = [t[1] for t in rlex.scan(s, 'triple')]
         s = ' '.join(draw(texts.mutated(toks, max_mut=2)))
@@ -235,16 +257,32 @@ def _fuzz_decode(data):
     return {'s': text}
 
 
+REPEAT_UNITS = ['()', '(a)', '(a / b) ', '# ::id 1\n(a / b)\n', '(a :r (b :s ()))', '(a :r "s")\n\n', '() ', '(a / b~1 :r~2 c~e.3)\n', '(a',
+                'r(a, b) ^ ', 'r(a, "s")^', '^r(a,b) ', '# c\n', '(a :r (b :r (c :r (d))))']
+REPEATS = [2, 3, 17, 100, 257, 401, 513, 1025]
+
+
+def _repeat_chunks(tier):
+    return [{'u': i} for i in range(len(REPEAT_UNITS))]
+
+
+def _repeat_cases(ch):
+    for n in REPEATS:
+        yield {'s': REPEAT_UNITS[ch['u']], 'repeat': n}
+        if REPEAT_UNITS[ch['u']].rstrip().endswith('^'):
+            yield {'s': REPEAT_UNITS[ch['u']], 'repeat': n, 'k': 'triples'}
+
+
 def stages(tier):
     L = 5 if tier == 'quick' else 6
     return [
         Enum('exhaustive-strings',
              lambda tier: strings.prefix_chunks(ALPHA, L, 2),
-             lambda ch: ({'s': s} for s in strings.strings_of(ch, ALPHA, L, 2)),
+             lambda ch: ({'s': s, 'only': 'graph'} for s in strings.strings_of(ch, ALPHA, L, 2)),
              'every string of length <= %d over %d symbols (%d), as graph text' % (L, len(ALPHA), strings.count(ALPHA, L))),
         Enum('exhaustive-strings-triples',
              lambda tier: strings.prefix_chunks(ALPHA, L - 1, 2),
-             lambda ch: ({'s': s, 'k': 'triples'} for s in strings.strings_of(ch, ALPHA, L - 1, 2)),
+             lambda ch: ({'s': s, 'k': 'triples', 'only': 'triples'} for s in strings.strings_of(ch, ALPHA, L - 1, 2)),
              'every string of length <= %d over the same alphabet, as triple conjunction' % (L - 1)),
         Enum('token-sequences', _tokseq_chunks, _tokseq_cases,
              'token sequences over a 10-token vocabulary joined by single blanks: all of length <= 6 (quick) / 8 (thorough) '
@@ -254,6 +292,8 @@ def stages(tier):
         Enum('string-atoms', _stratom_chunks, _stratom_cases,
              'every string of length <= 5 (quick) / 7 (thorough) over quote, backslash, a, blank, n placed as target, concept, bare text and '
              'conjunction target (terminated, unterminated, escaped quotes and backslashes in every position)'),
+        Enum('repetitions', _repeat_chunks, _repeat_cases,
+             'small units (graphs, empty nodes, comments, conjunction items) repeated 2..1025 times in one input: counters, caches and limits'),
         Hyp('random', _random, 7000, 300000),
         Fuzz('coverage-guided-bytes', 0, 3000000, decode=_fuzz_decode, seeds=corpus.test_strings(), dictionary=corpus.DICTIONARY, max_len=120),
         Fuzz('coverage-guided-bytes-empty-corpus', 0, 1000000, decode=_fuzz_decode, seeds=None, dictionary=None, max_len=64, shards=8),
